@@ -266,6 +266,29 @@ def run(ctx):
                 corr = True
         ctx.coverage['traces_validated_against_impl'] += 1
         seen.add(txt)
+        # pre-decoded nested values handed to parse_scalar: decoded like the same cell of the grid, the caller's object untouched,
+        # and a second call gives the same result
+        if tree.get('meta', {}).get('ver') == '3.0':
+            g = h.parse(txt, mode=h.MODE_JSON)
+            for ri, jrow in enumerate(tree.get('rows') or []):
+                for col, cell in jrow.items():
+                    if not isinstance(cell, (list, dict)):
+                        continue
+                    ctx.count('parse_scalar:pre-decoded')
+                    snap = copy.deepcopy(cell)
+                    try:
+                        r1 = h.parse_scalar(cell, mode=h.MODE_JSON, version='3.0')
+                        r2 = h.parse_scalar(cell, mode=h.MODE_JSON, version='3.0')
+                    except Exception as e:  # noqa
+                        ctx.violation('impl-counterexample', 'parse_scalar on a pre-decoded %s raised %s' % (type(cell).__name__, type(e).__name__), {'scalar': json.dumps(snap)[:2000]})
+                        return
+                    if cell != snap:
+                        ctx.violation('impl-counterexample', 'parse_scalar modified the caller\'s pre-decoded object', {'scalar': json.dumps(snap)[:2000], 'after': json.dumps(cell)[:500]})
+                        return
+                    if codec.canon(r1) != codec.canon(r2) or codec.canon(r1) != codec.canon(g[ri].get(col)):
+                        ctx.violation('impl-counterexample', 'parse_scalar on a pre-decoded value differs from the same cell read through parse (or from its own second call)',
+                                      {'scalar': json.dumps(snap)[:2000]})
+                        return
     # odd spellings: model vs implementation only
     for pre3 in (False, True):
         answers = ctx.model.ask([[codec.Sym('jparse'), pre3, codec.json_to_wire(s)] for s in ODD])
